@@ -81,10 +81,19 @@ def cases(tier, seed):
             for (c, d) in cuts[: (4 if tier == "quick" else 7)]:
                 reg = (S[a:b], S[b:])
                 trip.append((reg, (S[:a], S[a:b], S[b:]), (S[:c], S[c:d], S[d:])))
+        # every shape of (client identity, server identity) in {absent, explicit spelling of the default, custom}^2 on the
+        # server against every shape on the client (registration as the server): match iff effectively equal
+        shapes = [None, "@pk", b"custom-id"]
+        shape_trip = []
+        for su in shapes:
+            for ss in shapes:
+                for cu in shapes:
+                    for cs in shapes:
+                        shape_trip.append(((su, ss), (None, su, ss), (None, cu, cs)))
         if tier == "quick":
-            keep = trip[:8] + rnd.sample(trip[8:], 28)
+            keep = trip[:8] + rnd.sample(trip[8:], 28) + rnd.sample(shape_trip, 27)
         else:
-            keep = trip
+            keep = trip + shape_trip
         for i, (reg, srv, cli) in enumerate(keep):
             out.append(dict(cross=["login_finish", "srv_login_finish", "srv_reg_start"], cross_limit=60, script=triple, suite=s, seed=seed * 100000 + si * 1000 + i, mode="pattern",
                             params=dict(reg=reg, srv=srv, cli=cli, cred_reg=b"user", cred_login=b"user")))
